@@ -147,7 +147,17 @@ func (dm *DagModifier) expandSparse(size int64) error {
 	// Update curNode so subsequent writes use the expanded node.
 	// Without this, writes after sparse expansion would go to the old node.
 	dm.curNode = nnode
+	dm.dropReader()
 	return nil
+}
+
+// dropReader discards the active reader, which was created over a node that is
+// not (or is about to be no longer) the current one.
+func (dm *DagModifier) dropReader() {
+	if dm.read != nil {
+		dm.read = nil
+		dm.readCancel()
+	}
 }
 
 // Write continues writing to the dag at the current offset
@@ -750,6 +760,9 @@ func (dm *DagModifier) Truncate(size int64) error {
 	if size > realSize {
 		return dm.expandSparse(size - realSize)
 	}
+
+	// dagTruncate changes curNode in place: a reader over it must not survive
+	dm.dropReader()
 
 	nnode, err := dm.dagTruncate(dm.ctx, dm.curNode, uint64(size))
 	if err != nil {
